@@ -176,12 +176,32 @@ def run_assignment(window, n_nsub, n_hsub, assign_n2h, assign_h2n):
             if L.n2h:
                 act = assign_n2h[kn] if kn < len(assign_n2h) else "deliver"
                 kn += 1
+                if act.startswith("stall"):
+                    # the frame (and, the line being FIFO, everything behind it) is held while the acknowledgement
+                    # timers of both ends expire once / twice; then it is delivered
+                    for _ in range(2 if act == "stall2" else 1):
+                        if L.d.outstanding() and L.d.loop.next_deadline() is not None:
+                            L.host_timeout()
+                        if L.ncp.unacked:
+                            L.ncp_timeout()
+                        while L.h2n:            # what the host retransmitted reaches the NCP meanwhile
+                            a2 = assign_h2n[kh] if kh < len(assign_h2n) else "deliver"
+                            kh += 1
+                            L.h2n_step(a2 if not a2.startswith("stall") else "deliver")
+                    act = "deliver"
                 L.n2h_step(act)
                 if act == "dup":
                     L.n2h_step("deliver")
             elif L.h2n:
                 act = assign_h2n[kh] if kh < len(assign_h2n) else "deliver"
                 kh += 1
+                if act.startswith("stall"):
+                    for _ in range(2 if act == "stall2" else 1):
+                        if L.d.outstanding() and L.d.loop.next_deadline() is not None:
+                            L.host_timeout()
+                        if L.ncp.unacked:
+                            L.ncp_timeout()
+                    act = "deliver"
                 L.h2n_step(act)
                 if act == "dup":
                     L.h2n_step("deliver")
@@ -346,6 +366,25 @@ class Check(PropertyCheck):
                                        "how": "exhaustive fault assignment on a small scenario, judged end to end"},
                                       found_input=True, signature="link:" + why[:50])
                         return n
+        # stalls past the acknowledgement timeout (the held frame is overtaken by nothing: the line is FIFO, but the
+        # retransmissions it provokes leave stale acknowledgements in the queue) combined with losses on the other line
+        quick = depth <= 4
+        for window in ((1, 3) if quick else (1, 2, 3)):
+            for a in itertools.product(["deliver", "stall", "stall2"], repeat=3 if quick else 4):
+                if all(x == "deliver" for x in a):
+                    continue
+                for b in itertools.product(["deliver", "drop"], repeat=4 if quick else 6):
+                    for (n2h, h2n) in ((a, b), (b, a)):
+                        obs = run_assignment(window, 2, 5, n2h, h2n)
+                        n += 1
+                        why = self.judge(obs)
+                        if why:
+                            rep.violation({"input": {"window": window, "ncp_submits": 2, "host_submits": 5,
+                                                     "assignment_ncp_to_host": list(n2h), "assignment_host_to_ncp": list(h2n)},
+                                           "observed": obs, "required": why,
+                                           "how": "exhaustive stall x loss assignment on a small scenario, judged end to end"},
+                                          found_input=True, signature="link:" + why[:50])
+                            return n
         # retry-budget boundary: every mix of lost and detectably corrupted transmissions of the first frames
         # (up to the whole budget of one frame and into the next), both directions
         for ln in range(depth + 1, 8):
